@@ -167,7 +167,19 @@ def open_workload(w: dict, seed: int):
     conv = T.event_from_generic if integ == "generic" else T.event_from_rdflib
     if w["kind"] == "parse-flat":
         return (repr(T.norm_event(conv(x))).encode() for x in mod.parse_jelly_flat(io.BytesIO(data)))
-    return (repr(sorted(T.norm_events(s[0]), key=repr)).encode() for s in pj.iter_grouped(integ, data))
+    # grouped parsing with the caller's frame-metadata ContextVar: this consumer ANNOTATES the mapping it is handed (it is typed
+    # MutableMapping) - what it then sees on its next frames must still be its own stream's metadata only
+    from contextvars import ContextVar
+    var: ContextVar = ContextVar(f"rv_c12_meta_{w['idx']}", default=None)
+
+    def grouped_chunks():
+        for s in pj.iter_grouped(integ, data, frame_metadata=var):
+            md = var.get()
+            seen = sorted((k, bytes(v)) for k, v in md.items()) if md is not None else None
+            if isinstance(md, dict):
+                md[f"seen-by-workload-{w['idx']}"] = b"1"
+            yield repr((sorted(T.norm_events(s[0]), key=repr), seen)).encode()
+    return grouped_chunks()
 
 
 def digest_of(chunks) -> str:
